@@ -442,6 +442,40 @@ def run(ctx):
         if g.problems:
             prop_fail.append({'class': 'not-confined', 'payload': p, 'problems': g.problems, 'where': 'rules file'})
         nfile += 1
+    # an expression reads ITS transaction, fields, rows and user variables - nothing an EARLIER evaluation left behind: after an
+    # expression that binds a name (walrus, comprehension / generator variable, a generator abandoned half-way) the next expression,
+    # evaluated for the same or another transaction, answers what it answers in a fresh interpreter state (an undefined name fails)
+    from .c07 import COLLIDE
+    from tally import expr_parser as EP
+    leftover = [pair for pair in COLLIDE if ':=' in pair[0] or ' for ' in pair[0]]
+
+    def _ans(e, t):
+        try:
+            return {'ok': repr(EP.evaluate_transaction(e, copy.deepcopy(t), data_sources=copy.deepcopy(rows)))}
+        except EP.ExpressionError:
+            return {'err': 'expr'}
+        except Exception as ex:                                          # noqa
+            return {'err': type(ex).__name__}
+    t_a = RC.txn_for_engine(txn)
+    t_b = dict(t_a, description='COFFEE SHOP 7', amount=3.5)
+    if not ctx.replay or 'sequence' in json.loads(common.read(ctx.replay)).get('counterexample', {}):
+        seqs = [[list(pair) for pair in leftover]]
+        if ctx.replay:
+            seqs = [json.loads(common.read(ctx.replay))['counterexample']['sequence']]
+        for pairs in seqs:
+            readers = [b for _, b in pairs]
+            before = [_ans(e, t_b) for e in readers]            # nothing has bound these names yet
+            for a, _ in pairs:
+                _ans(a, t_a)                                    # the binders, on ANOTHER transaction
+            after = [_ans(e, t_b) for e in readers]
+            own = {'weekday == 3', 'amount == 7', 'month', 'contains("UBER")'}
+            for e, x, y in zip(readers, before, after):
+                required = x if e in own else {'err': 'expr'}  # a name no transaction, field, row or variable defines: an expression error
+                if y != required or x != required:
+                    prop_fail.append({'class': 'reads-what-an-earlier-evaluation-left-behind', 'sequence': pairs, 'expression': e,
+                                      'before the binders ran': x, 'after the binders ran (on another transaction)': y, 'required': required})
+                    break
+    ctx.notes['leftover_binding_sequences'] = len(leftover) + 1
     ctx.cov['evaluations'] = len(plist) + nfile + len(vcases)
     ctx.cov['traces_validated_against_impl'] = n + len(vcases)
     ctx.cov['distinct_nontrivial'] = len({p for p in plist if 'load' not in impl_out.get(p, {'load': 1})}) + hist['rejected']
